@@ -156,6 +156,8 @@ def twin_run(chk, rng, ctype, sk, dt, steps, batch, report=True, corrupt=False):
     homogeneous = rng.random() < 0.25
     if homogeneous:
         dk = torch.full(wshape, rng.randint(0, maxk))
+    else:
+        dk.reshape(-1)[rng.randrange(dk.numel())] = maxk      # some synapse sits at the supported maximum
     delayed.weight = Wt.clone()
     delayed.delay = dk.float() * (D * P.tick)
     bias = delayed.bias.detach().clone()
@@ -304,11 +306,15 @@ def run(tier: str, seed: int) -> int:
 
     # ---- A2
     nruns = 0
-    reps = 1 if tier == "quick" else 6
+    reps = 2 if tier == "quick" else 8
+    # step times incl. ones for which float32(k) * float32(dt) (the learned delay parameter) lies ABOVE the float64
+    # maximum k * dt kept by the synapse (0.3, 1.1, 0.7): still "a multiple of the step time and at most the
+    # supported maximum" within the synapse's interpolation tolerance, so the shift must be exact there too
+    DTS = [1.0, 0.5, 1.3, 0.3, 1.1, 0.7, 0.1]
     for rep in range(reps):
         for ctype in ("dense", "direct", "lateral", "conv"):
             for sk in sorted(ALL):
-                dt = [1.0, 0.5, 1.3][(nruns + rep) % 3]
+                dt = DTS[(nruns + 3 * rep) % len(DTS)]
                 twin_run(chk, rng, ctype, sk, dt, steps=8 if tier == "quick" else 14, batch=rng.choice([1, 2, 3]))
                 nruns += 1
     chk.extra["twin_runs"] = nruns
